@@ -19,6 +19,8 @@ pub enum W {
     Pid(u32),
     All,
     Unknown,
+    /// several operands: Some(job id) or None (an unknown pid)
+    Multi(Vec<Option<u32>>),
 }
 
 #[derive(Clone, Debug, Serialize, Deserialize, PartialEq)]
@@ -171,7 +173,7 @@ impl Gen<'_> {
                     });
                     out.push(N::Qm);
                 }
-                83..=90 if !open.is_empty() => {
+                84..=87 if !open.is_empty() => {
                     // wait for one known job
                     let k = self.rng.below(open.len() as u32) as usize;
                     let id = open.remove(k);
@@ -185,6 +187,22 @@ impl Gen<'_> {
                         // waiting again for a forgotten job: unknown pid => 127
                         out.push(N::Wait(W::Pid(id)));
                         out.push(N::Qm);
+                    }
+                }
+                88..=91 if !open.is_empty() => {
+                    // wait with several operands, unknown pids mixed in; the
+                    // status is that of the last operand, all are awaited
+                    let mut ops: Vec<Option<u32>> = open.drain(..).map(Some).collect();
+                    let n_unknown = self.rng.range(1, 2);
+                    for _ in 0..n_unknown {
+                        let at = self.rng.below(ops.len() as u32 + 1) as usize;
+                        ops.insert(at, None);
+                    }
+                    let ids: Vec<u32> = ops.iter().flatten().copied().collect();
+                    out.push(N::Wait(W::Multi(ops)));
+                    out.push(N::Qm);
+                    for id in ids {
+                        out.push(N::Show(id));
                     }
                 }
                 91..=93 => {
@@ -379,6 +397,15 @@ fn render(n: &N, out: &mut String, _sep: &str) {
         N::Wait(W::Pid(id)) => out.push_str(&format!("wait $p_{id}")),
         N::Wait(W::All) => out.push_str("wait"),
         N::Wait(W::Unknown) => out.push_str("wait 99999"),
+        N::Wait(W::Multi(ops)) => {
+            out.push_str("wait");
+            for (i, o) in ops.iter().enumerate() {
+                match o {
+                    Some(id) => out.push_str(&format!(" $p_{id}")),
+                    None => out.push_str(&format!(" {}", 99990 + i)),
+                }
+            }
+        }
         N::Show(id) => out.push_str(&format!(
             "cat out_{id}; read q <pid_{id}; case \"$q\" in \"$p_{id}\") echo pid_ok;; *) echo pid_DIFF \"$q\" \"$p_{id}\";; esac"
         )),
@@ -559,6 +586,21 @@ fn eval(n: &N, cx: &mut Ctx) {
             cx.status = 0;
         }
         N::Wait(W::Unknown) => cx.status = 127,
+        N::Wait(W::Multi(ops)) => {
+            for o in ops {
+                match o {
+                    Some(id) => match cx.jobs.get_mut(id) {
+                        Some(j) if j.known => {
+                            j.known = false;
+                            cx.status = j.exit;
+                            cx.unwaited.remove(id);
+                        }
+                        _ => cx.status = 127,
+                    },
+                    None => cx.status = 127,
+                }
+            }
+        }
         N::Show(id) => {
             let lines = cx.jobs.get(id).map(|j| j.out.clone()).unwrap_or_default();
             cx.out.extend(lines);
@@ -644,6 +686,16 @@ fn repair(nodes: &mut Vec<N>, funcs: &mut BTreeSet<u32>) {
                 true
             }
             N::Wait(W::Pid(id)) | N::Show(id) => started.contains(id),
+            N::Wait(W::Multi(ops)) => {
+                for o in ops.iter_mut() {
+                    if let Some(id) = o
+                        && !started.contains(id)
+                    {
+                        *o = None;
+                    }
+                }
+                true
+            }
             N::Def { f, body } => {
                 let mut fs = funcs.clone();
                 repair(body, &mut fs);
@@ -827,12 +879,30 @@ fn pid_of_job(obs: &Observed, id: u32) -> Option<i32> {
 
 /// Checks one observed run against the expectation. Returns (class, key, detail).
 pub fn check_run(c: &Case, exp: &Expect, obs: &Observed) -> Option<(String, String, String)> {
+    check_run_opt(c, exp, obs, true)
+}
+
+/// `truth == false`: only the oracles that survive an injected fork failure
+/// (termination, wait/exit consistency, no activity after death).
+pub fn check_run_opt(c: &Case, exp: &Expect, obs: &Observed, truth: bool) -> Option<(String, String, String)> {
     if let Some(v) = crate::shellrun::check_liveness(obs) {
         return Some(v);
     }
     let o = &obs.outcome;
+    let exp_relaxed;
+    let exp = if truth {
+        exp
+    } else {
+        // accept whatever was printed
+        exp_relaxed = Expect {
+            stdout: obs.stdout.clone(),
+            status: obs.status.trim_start_matches("exited:").parse().unwrap_or(0),
+            unwaited: exp.unwaited.clone(),
+        };
+        &exp_relaxed
+    };
     let want_status = format!("exited:{}", exp.status);
-    if obs.stdout != exp.stdout || obs.status != want_status || !obs.stderr.is_empty() {
+    if truth && (obs.stdout != exp.stdout || obs.status != want_status || !obs.stderr.is_empty()) {
         let key = if obs.stderr.contains("no job to wait for") {
             "truth:wait-echild-while-child-alive"
         } else {
@@ -922,7 +992,7 @@ pub fn check_run(c: &Case, exp: &Expect, obs: &Observed) -> Option<(String, Stri
         }
     }
     for p in &o.procs {
-        if p.unreaped && !allowed.contains(&p.pid) {
+        if truth && p.unreaped && !allowed.contains(&p.pid) {
             return Some((
                 "zombie".into(),
                 "zombie".into(),
@@ -1030,7 +1100,7 @@ impl Prop for C13 {
             Tier::Quick => 12,
             Tier::Thorough => 32,
         };
-        let mut first_failure = None;
+        let mut first_failure: Option<Failure> = None;
         for k in 0..schedules {
             let cfg = draw_config(&mut rng, k);
             let decider = Decider::record(Rng::stream(seed, 1300 + k as u64, index));
@@ -1060,12 +1130,45 @@ impl Prop for C13 {
                 break;
             }
         }
+        if first_failure.is_none() {
+            // fork failure (EAGAIN) at up to three seeded positions: the shell
+            // must still terminate, never wait wrongly, never act after death
+            let forks = {
+                let cfg = draw_config(&mut rng, 0);
+                let (obs, _) = run_one(&case, &exp, &cfg, Decider::record(Rng::stream(seed, 1390, index)));
+                obs.history.iter().filter(|e| e.kind == "fork").count() as u32
+            };
+            for j in 0..forks.min(3) {
+                let k = 1 + rng.below(forks);
+                let mut cfg = draw_config(&mut rng, 1 + j);
+                cfg.fail_spawn_at = Some(k);
+                let obs = run_script(&spec_of(&case), &cfg, Decider::record(Rng::stream(seed, 1391 + j as u64, index)));
+                stats.note_run(case_hash ^ 0xEA6A, &obs.outcome, obs.faults_fired);
+                stats.add_counters(&obs.counters);
+                stats.digest(index, crate::shellrun::obs_digest(&obs));
+                if let Some(v) = check_run_opt(&case, &exp, &obs, false) {
+                    stats.count("violating_runs", 1);
+                    let mut f = failure(&case, &cfg, &obs, &[], v);
+                    f.key = format!("eagain:{}", f.key);
+                    first_failure = Some(f);
+                    break;
+                }
+            }
+        }
         first_failure
     }
 
     fn rerun(&self, case: &Value, cfg: &SimConfig, decisions: &[Decision]) -> Option<Failure> {
         let c: Case = serde_json::from_value(case.clone()).ok()?;
         let exp = expect(&c);
+        if cfg.fail_spawn_at.is_some() {
+            let obs = run_script(&spec_of(&c), cfg, Decider::replay(decisions));
+            return check_run_opt(&c, &exp, &obs, false).map(|v| {
+                let mut f = failure(&c, cfg, &obs, decisions, v);
+                f.key = format!("eagain:{}", f.key);
+                f
+            });
+        }
         let (obs, v) = run_one(&c, &exp, cfg, Decider::replay(decisions));
         v.map(|v| failure(&c, cfg, &obs, decisions, v))
     }
